@@ -1,7 +1,6 @@
 """C16: 2D-parity codec."""
 import vlib, session_check, sessions
 
-LEVEL = "exploration"
 
 
 def product_check(c, reqs, ans):
@@ -37,8 +36,53 @@ def product_check(c, reqs, ans):
     return len(seen)
 
 
+def matrix_correspondence(c):
+    """every (k, n-k) of the property's domain (k <= 16, n <= 24; a margin beyond it as well): the C accepts it iff the
+    model's parameter search (Pchk2D.create2d) does, and then builds the same matrix"""
+    import ldpc
+    pairs = [(k, r) for k in range(1, 19) for r in range(1, 13) if k + r <= 26]
+    reqs = [sessions.Req(sessions.P2D, k, r, 4, 0, 0, 0, 0, 0, 2, [], pseed=1) for (k, r) in pairs]
+    lines = [q.line() for q in reqs]
+    ans, crashes = ldpc.run_dec(c.snap, lines)
+    for kx, se in crashes[:4]:
+        c.violation("session crashed (%s): %s" % (reqs[kx].desc(), ans[kx][:160]), "session-crash", {"stream": "dec", "request": lines[kx], "stderr": se})
+    try:
+        rc, mout, _ = vlib.sh([vlib.ocaml_model()], input="".join("T %d %d\n" % (r, k + r) for (k, r) in pairs), timeout=600)
+    except vlib.BuildError as e:
+        c.proof_failed.append({"model_build": str(e)[-1500:]}); return 0
+    ml = mout.splitlines()
+    n_ok = 0
+    for j, ((k, r), al) in enumerate(zip(pairs, ans)):
+        a = ldpc.Ans(al)
+        if a.crash:
+            continue
+        in_domain = k <= 16 and k + r <= 24
+        mo = ml[j] if j < len(ml) else "?"
+        c_acc = a.P == 0 and a.Q == 0
+        m_acc = mo != "R NONE"
+        c.dist("accepted" if c_acc else "rejected")
+        if c_acc and a.H is not None:
+            # search for a failing input first: an accepted pair whose matrix is not the product matrix
+            product_check(c, [reqs[j]], [al])
+        if not in_domain:
+            if c_acc:
+                c.proof_failed.append({"correspondence": "p2d/limits", "request": lines[j], "c": "accepted beyond k <= 16, n <= 24"})
+            continue
+        want = None
+        if m_acc:
+            want = mo.split(" H", 1)[1].split(":", 1)[1]
+        if c_acc != m_acc or (c_acc and a.Hs != want):
+            c.proof_failed.append({"correspondence": "p2d/matrix", "request": lines[j], "c": ("accepted H=" + (a.Hs or "")) if c_acc else "rejected (P=%s Q=%s)" % (a.P, a.Q),
+                                   "model": mo[:400]})
+        else:
+            n_ok += 1
+    return n_ok
+
+
 def run(c):
+    c.prove(["Properties_C16.v"])
     qk = c.tier == "quick"
     reqs, ans = session_check.run_sessions(c, (sessions.P2D,), {"C16", "C10", "C11", "C07", "C08", "C06"}, 400 if qk else 5000, 1500 if qk else 30000)
     c.cov["shapes_checked"] = product_check(c, reqs, ans)
-    c.trusted = vlib.BASE_TRUST + ["the codec-5 specific code (matrix construction, API glue) is not modelled in Coq: structure, soundness, completeness and leak-freedom are decided on the C"]
+    c.cov["matrix_pairs_agreeing_with_model"] = matrix_correspondence(c)
+    c.trusted = vlib.BASE_TRUST + ["Pchk2D.v hand-written mirror of the 2D matrix construction (compared with the C for every pair of the domain); the codec-5 API glue (pointer cast to the generic control block) is not modelled: sessions run on the C; ML completeness and leak-freedom are decided on the C (GF(2) oracle, allocation count) and by the IT/ML model correspondence"]
